@@ -16,6 +16,7 @@ MODULES = {
     "C10": "props.c10",
     "C11": "props.c11",
     "C12": "props.c12",
+    "C13": "props.c13",
     "C14": "props.c14",
     "C15": "props.c15",
     "C16": "props.c16",
